@@ -71,19 +71,20 @@ TMOS = [-1, 17, None]
 
 def _tmos_ok(child, shape, T):
     """every wait for a prompt gets the caller's timeout; only the re-synchronisation after incomplete input uses 1 s"""
-    want = {0: [T, T], 1: [T, T, T], 3: [T, T, T], 2: [T, 1, T]}[shape]
+    want = {0: [T, T], 1: [T, T, T], 3: [T, T, T], 2: [T, 1, T], 4: [T, T, T]}[shape]
     return child.tmos == want
 
 
-@obligation(params=dict(o1=Text(2), o2=Text(2), o3=Text(2), c1=Int(0, 4), c2=Int(0, 4), c3=Int(0, 4), shape=Int(0, 3)),
+@obligation(params=dict(o1=Text(2), o2=Text(2), o3=Text(2), c1=Int(0, 4), c2=Int(0, 4), c3=Int(0, 4), shape=Int(0, 4)),
             tags={2: 'two single-line commands', 3: 'a two-line command then a single-line one',
-                  4: 'incomplete input: ValueError, then a normal command', 5: 'three lines, the middle one empty'},
+                  4: 'incomplete input: ValueError, then a normal command', 5: 'three lines, the middle one empty',
+                  6: 'a command ending with a newline (an extra empty line is sent)'},
             timeout=900, split=('shape', 'c1'),
             thorough=dict(params=dict(o1=Text(3), o2=Text(3), o3=Text(3), c1=Int(0, 5), c2=Int(0, 5), c3=Int(0, 5)),
                           timeout=3000, split=('shape', 'c1', 'c2')),
             note='shape 0: cmd; cmd   1: two-line cmd; cmd   2: incomplete cmd (continuation prompt) ; cmd')
 def Q1_commands(o1, o2, o3, c1, c2, c3, shape, tmo=None):
-    shape = pick(shape, 0, 3)
+    shape = pick(shape, 0, 4)
     # the timeout convention the caller uses (-1 / a number / None) varies with the first cut position
     T = TMOS[(pick(c1, 0, 7) if tmo is None else tmo) % 3]
     for o in (o1, o2, o3):
@@ -95,6 +96,8 @@ def Q1_commands(o1, o2, o3, c1, c2, c3, shape, tmo=None):
         answers = [(o1, 1), (o2, 0), (o3, 0)]
     elif shape == 3:
         answers = [(o1, 1), (o2, 1), (o3, 0)]          # 'a', '', 'b': the empty line is input like any other
+    elif shape == 4:
+        answers = [(o1, 1), (o2, 0), (o3, 0)]          # 'a\n' = the lines 'a' and '' (ends an indented block), then 'c'
     else:
         answers = [(o1, 1), (o3, 0)]
     child = Repl(answers, [c1, c2, c3])
@@ -117,6 +120,11 @@ def Q1_commands(o1, o2, o3, c1, c2, c3, shape, tmo=None):
                 r1 = rw.run_command('a\n\nb', timeout=T)
                 ok = (r1 == o1 + o2 + o3) and child.lines == ['a', '', 'b']
                 tag = 5
+            elif shape == 4:
+                r1 = rw.run_command('a\n', timeout=T)
+                r2 = rw.run_command('c', timeout=T)
+                ok = (r1 == o1 + o2) and (r2 == o3) and child.lines == ['a', '', 'c']
+                tag = 6
             else:
                 try:
                     rw.run_command('if x:', timeout=T)
@@ -164,9 +172,10 @@ def _drive(coro, child, loop):
     raise AssertionError('run_command did not finish')
 
 
-@obligation(params=dict(o1=Text(1), o2=Text(1), o3=Text(1), c1=Int(0, 3), c2=Int(0, 3), c3=Int(0, 3), shape=Int(0, 3)),
+@obligation(params=dict(o1=Text(1), o2=Text(1), o3=Text(1), c1=Int(0, 3), c2=Int(0, 3), c3=Int(0, 3), shape=Int(0, 4)),
             tags={2: 'two single-line commands', 3: 'a two-line command then a single-line one',
-                  4: 'incomplete input: ValueError, then a normal command', 5: 'a three-line command'},
+                  4: 'incomplete input: ValueError, then a normal command', 5: 'a three-line command',
+                  6: 'a command ending with a newline (an extra empty line is sent)'},
             timeout=900, split=('shape', 'c1'),
             thorough=dict(params=dict(o1=Text(2), o2=Text(2), o3=Text(2), c1=Int(0, 4), c2=Int(0, 4), c3=Int(0, 4)), timeout=3000),
             note='the awaited form run_command(..., async_=True) over a hand-driven event loop returns the same values '
@@ -175,7 +184,7 @@ def Q2_commands_async(o1, o2, o3, c1, c2, c3, shape, tmo=None):
     T = TMOS[(pick(c1, 0, 7) if tmo is None else tmo) % 3]
     import pexpect._async_w_await as AW
     from harness.C14 import FakeAsyncio, Loop
-    shape = pick(shape, 0, 3)
+    shape = pick(shape, 0, 4)
     for o in (o1, o2, o3):
         if not _clean(o):
             return SKIP
@@ -185,6 +194,8 @@ def Q2_commands_async(o1, o2, o3, c1, c2, c3, shape, tmo=None):
         answers = [(o1, 1), (o2, 0), (o3, 0)]
     elif shape == 3:
         answers = [(o1, 1), (o2, 1), (o3, 0)]
+    elif shape == 4:
+        answers = [(o1, 1), (o2, 0), (o3, 0)]
     else:
         answers = [(o1, 1), (o3, 0)]
     child = Repl(answers, [c1, c2, c3])
@@ -209,6 +220,11 @@ def Q2_commands_async(o1, o2, o3, c1, c2, c3, shape, tmo=None):
                 r1 = _drive(rw.run_command('a\nb\nc', timeout=T, async_=True), child, loop)
                 ok = (r1 == o1 + o2 + o3) and child.lines == ['a', 'b', 'c']
                 tag = 5
+            elif shape == 4:
+                r1 = _drive(rw.run_command('a\n', timeout=T, async_=True), child, loop)
+                r2 = _drive(rw.run_command('c', timeout=T, async_=True), child, loop)
+                ok = (r1 == o1 + o2) and (r2 == o3) and child.lines == ['a', '', 'c']
+                tag = 6
             else:
                 try:
                     _drive(rw.run_command('if x:', timeout=T, async_=True), child, loop)
@@ -232,6 +248,8 @@ def Q2_commands_async(o1, o2, o3, c1, c2, c3, shape, tmo=None):
 
 
 def dry_runs():
+    yield 'Q1_commands', dict(o1='x', o2='w', o3='yz', c1=1, c2=0, c3=2, shape=4)
+    yield 'Q2_commands_async', dict(o1='x', o2='w', o3='yz', c1=1, c2=0, c3=2, shape=4)
     for shape in range(4):
         if shape == 3:
             yield 'Q1_commands', dict(o1='x', o2='', o3='yz', c1=1, c2=0, c3=2, shape=3)
